@@ -647,4 +647,4 @@ def check_narrow_counters(ctx):
         raise AnalysisError(f"narrow-counter self-test failed: {nb} of 2 seeded uses flagged, {ng} false alarms on the sequential twin")
     if not hits:
         ctx.ok("R8", f"{nfun} loader functions: no array index or loop bound derives from an integer field of <= 3 characters (positive control: {nb} seeded uses flagged, sequential twin silent)", "iodata/formats/")
-    ctx.floor("R8", nfun, 150, "loader-reachable functions")
+    ctx.floor("R8", nfun, 135, "loader-reachable functions")
